@@ -373,6 +373,9 @@ class C03(Prop):
                     'Model.Wire.serTx (shared wire model, C01) for the serialisation of the scratch transaction',
                     'btcmodel executable = compiled Model.* (Lean compiler)']
     assumptions = ['transaction fields lie in their wire ranges (Spec.Sighash.FieldsWF)',
+                   'OUT OF DOMAIN (cases kept to exercise the model, divergences are observations, never violations): '
+                   'subscripts that do not parse; hash types outside the 256 byte values (incl. outside int32, where the '
+                   'model says struct.error)',
                    'input index >= 0 (Python wrap-around of negative indices is not modelled here: declared exclusion; '
                    'C06/C07 model it, D7)',
                    'EXCLUSION (known finding D17): for a subscript that has the shape of a witness program the shipped '
@@ -401,7 +404,7 @@ class C03(Prop):
         self.C, self.S = C, S
         self.cache = TxCache()
         # the observation points must exist
-        for name in ('RawSignatureHash', 'SignatureHash', 'FindAndDelete', 'CScript', 'OP_CODESEPARATOR'):
+        for name in ('RawSignatureHash', 'SignatureHash', 'CScript'):      # auxiliary names are reached lazily
             getattr(S, name)
 
     # ---- generation -------------------------------------------------------------------------
@@ -431,7 +434,7 @@ class C03(Prop):
         for kind in ('start', 'middle', 'end', 'consec', 'only', 'none', 'mixed', 'pushes', 'bad'):
             scripts += [gen_subscript(rng, kind, big=big) for _ in range(40 if big else 6)]
         for sc in scripts + [b'', b'\xab', b'\x01\xab', b'\xab\x01\xab\xab', b'\x4c\x01\xab\xab', b'\x4d\x01\x00\xab\xab']:
-            yield mk('c03.fad', sc.hex(), 'ab', tag='fad')
+            yield mk('c03.fad', sc.hex(), 'ab', tag='fad', ood=not script_parses(sc))
         if shard == 0:
             for sc in WITNESS_LIKE + NOT_WITNESS + [bytes([v, 2, 0x51, 0x51]) for v in range(256)] + \
                     [bytes([0, ln]) + b'\x61' * k for ln in (0, 1, 2, 38, 39, 40, 41, 0x7f, 0x80, 0xfe, 0xff)
@@ -481,9 +484,10 @@ class C03(Prop):
             for idx in range(len(t['vin']) + 1):
                 cls = rng.choice('im')
                 for ht in HT_STANDARD + (0, rng.randrange(256)):
-                    yield mk('c03.raw', cls, sc.hex(), text, idx, ht, tag='template')
-                    yield mk('c03.wrapper', cls, sc.hex(), text, idx, ht, tag='template')
-                    yield mk('c03.wrapper.coded', cls, sc.hex(), text, idx, ht, tag='template-coded')
+                    ood = not script_parses(sc)          # the quantifier is "all subscripts that parse"
+                    yield mk('c03.raw', cls, sc.hex(), text, idx, ht, tag='template', ood=ood)
+                    yield mk('c03.wrapper', cls, sc.hex(), text, idx, ht, tag='template', ood=ood)
+                    yield mk('c03.wrapper.coded', cls, sc.hex(), text, idx, ht, tag='template-coded', ood=ood)
                 if script_parses(sc):
                     yield mk('c03.spec.raw', cls, sc.hex(), text, idx, rng.choice(HT_STANDARD), tag='template-spec')
         # (1) exhaustive hash-type byte per sampled (tx, script, index)
@@ -492,16 +496,17 @@ class C03(Prop):
             for sc in scs:
                 for idx in range(len(t['vin']) + 1):
                     cls = rng.choice('im')
+                    ood = not script_parses(sc)          # the quantifier is "all subscripts that parse"
                     for ht in range(256):
-                        yield mk('c03.raw', cls, sc.hex(), text, idx, ht, tag='raw256')
+                        yield mk('c03.raw', cls, sc.hex(), text, idx, ht, tag='raw256', ood=ood)
                     # Spec re-evaluation on a subset (independent oracle; its domain: scripts that parse)
                     for ht in (HT_STANDARD + (0, 0x1f, 0x22, 0x43, 0xe3, rng.randrange(256))
                                if script_parses(sc) else ()):
                         yield mk('c03.spec.raw', cls, sc.hex(), text, idx, ht, tag='spec')
                     for ht in HT_STANDARD + (0, 4, 0x22, 0x63, 0xff, rng.randrange(256)):
-                        yield mk('c03.wrapper', 'm' if cls == 'i' else 'i', sc.hex(), text, idx, ht, tag='wrapper')
+                        yield mk('c03.wrapper', 'm' if cls == 'i' else 'i', sc.hex(), text, idx, ht, tag='wrapper', ood=ood)
                     for ht in (HT_RANGE if (big or n % 4 == 0) else rng.sample(HT_RANGE, 4)):
-                        yield mk('c03.raw', cls, sc.hex(), text, idx, ht, tag='ht-range')
+                        yield mk('c03.raw', cls, sc.hex(), text, idx, ht, tag='ht-range', ood=True)    # beyond the 256 byte values
                     n += 1
             # the wrapper's assertion: witness programs as subscript
             for sc in rng.sample(WITNESS_LIKE, 2) + [gen_witness_shaped(rng) for _ in range(3)] + \
@@ -509,8 +514,9 @@ class C03(Prop):
                 idx = rng.randrange(len(t['vin']) + 1)
                 ht = rng.choice(HT_STANDARD)
                 cls = rng.choice('im')
-                yield mk('c03.wrapper', cls, sc.hex(), text, idx, ht, tag='wrapper-wit')
-                yield mk('c03.wrapper.coded', cls, sc.hex(), text, idx, ht, tag='wrapper-wit-coded')
+                ood = not script_parses(sc)
+                yield mk('c03.wrapper', cls, sc.hex(), text, idx, ht, tag='wrapper-wit', ood=ood)
+                yield mk('c03.wrapper.coded', cls, sc.hex(), text, idx, ht, tag='wrapper-wit-coded', ood=ood)
 
     # ---- real code ------------------------------------------------------------------------------
     def model_line(self, c):
@@ -582,7 +588,8 @@ class C03(Prop):
             cls, sc, text, idx, ht = a
             t, idx, scb = txfmt.parse_tx(text), int(idx), bytes.fromhex(sc)
             for s2 in shrink_script(scb):
-                yield mk(op, cls, s2.hex(), text, idx, ht, tag=tag)
+                if script_parses(s2):                 # stay inside the quantifier while shrinking
+                    yield mk(op, cls, s2.hex(), text, idx, ht, tag=tag)
             for t2, i2 in shrink_tx_cases(t, idx):
                 yield mk(op, cls, sc, txfmt.show_tx(t2), i2, ht, tag=tag)
             for h2 in (1,):
@@ -594,7 +601,8 @@ class C03(Prop):
             yield from H.shrink_history(mk, op, c)
         elif op in ('c03.fad', 'c03.iswit'):
             for s2 in shrink_script(bytes.fromhex(a[0])):
-                yield mk(op, s2.hex(), *a[1:], tag=tag)
+                if script_parses(s2) or op == 'c03.iswit':
+                    yield mk(op, s2.hex(), *a[1:], tag=tag)
 
     def signature(self, c, io, mo):
         # D17 (known finding): `assert not script.is_witness_scriptpubkey()` in SignatureHash(SIGVERSION_BASE) — a
